@@ -12,6 +12,9 @@ Log == ndJsonDeserialize(IOEnv.VERIF_TRACE)
 NLines == Len(Log)
 
 Has(e, f) == f \in DOMAIN e
+\* names of the client threads / pipes the drivers use
+ThreadNames == {"T" \o ToString(i) : i \in 1..48}
+PipeNames == {"p" \o ToString(i) : i \in 1..24}
 MinSet(S) == CHOOSE m \in S : \A x \in S : m <= x
 
 \* Evaluated as a state constraint: record progress, stop TLC at acceptance.
